@@ -1260,3 +1260,85 @@ class content:
         yield "not-scrolled-back-the-grid-itself", implies(k == 0, seq_rows_eq(out, old.term))
         yield "scrolled-back-the-last-k-scrollback-rows-then-the-top-of-the-grid", seq_rows_eq(out, mkrows(h, lambda j: view_row(old, j)))
         yield "canvas-untouched", frame_sgr(old, s)
+
+
+# =================================================================================================================
+# 9. lemmas: from the per-call clause to "equal to the reference after any sequence of SGR parameter lists"
+# =================================================================================================================
+# csi_set_attr proves   rend(new) shows RUN(attrs, 0, rend(old))   -- the reference started in what the terminal HOLDS.
+# The statement compares with the reference's own state REF: REF' = RUN(attrs, 0, REF).  Induction over the calls:
+# if rend(old) shows REF, then by `the-reference-respects-the-legitimate-variants` RUN(attrs, 0, rend(old)) shows
+# RUN(attrs, 0, REF) = REF', and by `shows-composes` rend(new) shows REF'.  At power-on both are DEFAULT_STATE.
+_STATE = dict(fk=Int, fn=Int, bk=Int, bn=Int, bo=Bool, ul=Bool, bl=Bool, so=Bool)
+
+
+def _st(a, suffix):
+    return tuple(getattr(a, k + suffix) for k in _STATE)
+
+
+def _state_params(*suffixes):
+    return {k + sfx: shp for sfx in suffixes for k, shp in _STATE.items()}
+
+
+@lemma("the-reference-respects-the-legitimate-variants/end-of-list", property="C15")
+class run_respects_shows_base:
+    """Induction on the number of parameters left, base: nothing left, RUN is the identity."""
+    params = dict(attrs=PARAMS, i=Int, **_state_params("1", "2"))
+
+    def requires(a):
+        run_unfold(a.attrs.seq, a.i, _st(a, "1"))
+        run_unfold(a.attrs.seq, a.i, _st(a, "2"))
+        return both(a.i >= Q.seq_len(a.attrs.seq), shows(_st(a, "1"), _st(a, "2")))
+
+    def claim(a):
+        yield "shows-is-kept", shows(RUN(a.attrs.seq, a.i, _st(a, "1")), RUN(a.attrs.seq, a.i, _st(a, "2")))
+
+
+@lemma("the-reference-respects-the-legitimate-variants/step", property="C15")
+class run_respects_shows_step:
+    """Step: at position i < n both runs take the same reference step (the position advances by the same amount, the
+    two renditions stay related), and the induction hypothesis — the lemma for the fewer parameters left from the
+    next position on, for the two renditions after the step — gives the claim."""
+    params = dict(attrs=PARAMS, i=Int, **_state_params("1", "2"))
+
+    def requires(a):
+        seq, S1, S2 = a.attrs.seq, _st(a, "1"), _st(a, "2")
+        n = Q.seq_len(seq)
+        run_unfold(seq, a.i, S1)
+        run_unfold(seq, a.i, S2)
+        got = [Q.seq_get(seq, a.i + k) for k in range(5)]
+        T1, j1 = ref_step(lambda k: got[k], n, a.i, S1)
+        T2, _j2 = ref_step(lambda k: got[k], n, a.i, S2)
+        hypothesis = implies(shows(T1, T2), shows(RUN(seq, j1, T1), RUN(seq, j1, T2)))  # (j1 > i: fewer parameters left)
+        return both(0 <= a.i, a.i < n, shows(S1, S2), hypothesis)
+
+    def claim(a):
+        yield "shows-is-kept", shows(RUN(a.attrs.seq, a.i, _st(a, "1")), RUN(a.attrs.seq, a.i, _st(a, "2")))
+
+
+@lemma("shows-composes", property="C15")
+class shows_composes:
+    params = _state_params("1", "2", "3")
+
+    def requires(a):
+        return both(shows(_st(a, "1"), _st(a, "2")), shows(_st(a, "2"), _st(a, "3")))
+
+    def claim(a):
+        yield "shows", shows(_st(a, "1"), _st(a, "3"))
+
+
+@lemma("shows-is-reflexive-and-exact-without-bold", property="C15")
+class shows_exact:
+    """Sanity of the comparison itself: a rendition shows itself; and without bold (or with a non-basic foreground)
+    nothing but a colour denoting the same colour is accepted."""
+    params = _state_params("1", "2")
+
+    def requires(a):
+        return shows(_st(a, "1"), _st(a, "2"))
+
+    def claim(a):
+        I, R = _st(a, "1"), _st(a, "2")
+        yield "reflexive", shows(I, I)
+        yield "same-flags", both(*[eq(I[c], R[c]) for c in range(4, 8)])
+        yield "same-background", col_same(I[2], I[3], R[2], R[3])
+        yield "same-foreground-unless-bold-and-basic", implies(neg(both(R[4], R[0] == K_INDEX, 0 <= R[1], R[1] < 8)), col_same(I[0], I[1], R[0], R[1]))
